@@ -192,6 +192,8 @@ pub trait Input {
         let mut has_yaml_ws = false;
         let mut chars_consumed = 0;
         loop {
+            #[cfg(saphyr_verif)]
+            crate::verif_hooks::work_tick();
             match self.look_ch() {
                 ' ' => {
                     has_yaml_ws = true;
@@ -211,6 +213,8 @@ pub trait Input {
                 '#' => {
                     self.skip(); // Skip over '#'
                     while !is_breakz(self.look_ch()) {
+                        #[cfg(saphyr_verif)]
+                        crate::verif_hooks::work_tick();
                         self.skip();
                         chars_consumed += 1;
                     }
@@ -382,6 +386,8 @@ pub trait Input {
     fn skip_while_non_breakz(&mut self) -> usize {
         let mut count = 0;
         while !is_breakz(self.look_ch()) {
+            #[cfg(saphyr_verif)]
+            crate::verif_hooks::work_tick();
             count += 1;
             self.skip();
         }
@@ -400,6 +406,8 @@ pub trait Input {
     fn skip_while_blank(&mut self) -> usize {
         let mut n_chars = 0;
         while is_blank(self.look_ch()) {
+            #[cfg(saphyr_verif)]
+            crate::verif_hooks::work_tick();
             n_chars += 1;
             self.skip();
         }
@@ -416,6 +424,8 @@ pub trait Input {
     fn fetch_while_is_alpha(&mut self, out: &mut String) -> usize {
         let mut n_chars = 0;
         while is_alpha(self.look_ch()) {
+            #[cfg(saphyr_verif)]
+            crate::verif_hooks::work_tick();
             n_chars += 1;
             out.push(self.peek());
             self.skip();
